@@ -225,6 +225,12 @@ class Enc:
 
     # ---- powers and roots -------------------------------------------
     def pow(self, base, exp):
+        if (exp.is_Integer and abs(int(exp)) > 64) or (exp.is_Rational and not exp.is_Integer and (abs(int(exp.p)) > 64 or int(exp.q) > 16)):
+            # huge exponents / binary floats as exponents: uninterpreted power keyed on (base, exponent)
+            b = self.tr(base)
+            self.domain.append(b > 0)
+            self.used_abstraction = True
+            return self.app("pow", (b, self.tr(exp)), positive=True)
         if exp.is_Integer:
             n = int(exp)
             b = self.tr(base)
